@@ -52,15 +52,63 @@ def sums(b):
     s2 = sum((i + 1) * x for i, x in enumerate(b))
     return '%d.%d.%d' % (len(b), s1, s2)
 
-def observe(fmt, data, sizes, late=None, queries=True, inspector=None, between=None):
-    """queries=False: do not touch any property between chunks (records only after finish)"""
+# ---------------------------------------------------------------------------------------------------------------
+# Chunk CONTAINERS.  The inspectors are handed whatever the caller's read loop produces: bytes, a fresh bytearray, one
+# bytearray that is re-used (refilled / overwritten) for every read, a memoryview over such a buffer (the zero-copy
+# `readinto` loop), a read-only memoryview.  The code copies what it keeps, so the observation depends on the CONTENT only;
+# every observation varies the container deterministically per case unless the caller fixes it.
+KINDS = ['bytes', 'bytearray', 'reused', 'view', 'roview']
+SCRIBBLE = bytes([0xA5, 0x5A, 0xC3, 0x3C, 0x00, 0xFF, 0x4B, 0x44])        # what the buffer holds once the call has returned
+
+def container_kind(data, sizes):
+    """the default container of a case: a function of the case alone"""
+    return KINDS[(len(data) * 31 + sum(sizes) * 7 + len(sizes) * 3 + (data[len(data) // 2] if data else 0)) % len(KINDS)]
+
+class Feeder:
+    def __init__(self, kind):
+        if kind not in KINDS: raise KeyError(kind)
+        self.kind = kind; self.buf = bytearray(); self.n = 0; self.cap = bytearray(1 << 16)
+    def wrap(self, chunk):
+        """the object the caller's loop would hand over for this chunk"""
+        chunk = bytes(chunk); k = self.kind; self.n = len(chunk)
+        if k == 'bytes': return chunk
+        if k == 'bytearray': return bytearray(chunk)
+        if k == 'roview': return memoryview(chunk)
+        if k == 'reused':
+            try: self.buf[:] = chunk                 # the same object, refilled
+            except BufferError: self.buf = bytearray(chunk)      # someone holds an export of our buffer: a new one
+            return self.buf
+        # 'view': a slice of one big re-used buffer
+        if len(self.cap) < len(chunk):
+            try: self.cap.extend(bytes(len(chunk) - len(self.cap)))
+            except BufferError: self.cap = bytearray(len(chunk))
+        self.cap[:len(chunk)] = chunk
+        return memoryview(self.cap)[:len(chunk)]
+    def after(self):
+        """the call has returned: the loop re-uses its buffer"""
+        pat = (SCRIBBLE * (self.n // len(SCRIBBLE) + 1))[:self.n]
+        if self.kind == 'reused' and len(self.buf) == self.n: self.buf[:] = pat
+        elif self.kind == 'reused': self.buf = bytearray(pat)     # the callee resized the caller's object
+        elif self.kind == 'view': self.cap[:self.n] = pat
+
+def eat(insp, chunk, feeder):
+    """insp.eat_chunk(<chunk in the feeder's container>), then the caller re-uses its buffer (also when eat_chunk raised)"""
+    try:
+        insp.eat_chunk(feeder.wrap(chunk))
+    finally:
+        feeder.after()
+
+def observe(fmt, data, sizes, late=None, queries=True, inspector=None, between=None, container=None):
+    """queries=False: do not touch any property between chunks (records only after finish);
+    container: one of KINDS, default container_kind(data, sizes)"""
     m = fi()
     insp = inspector if inspector is not None else m.ALL_FORMATS[fmt]()
+    feeder = Feeder(container or container_kind(data, sizes))
     recs = []
     for k, chunk in enumerate(split_sizes(data, sizes)):
         if between is not None: between(k)       # what else happens in the process between two chunks
         try:
-            insp.eat_chunk(chunk); e = '-'
+            eat(insp, chunk, feeder); e = '-'
         except Exception as ex:
             e = cls_name(ex)
         if queries or e != '-': recs.append(record(insp, e, m))
@@ -69,7 +117,7 @@ def observe(fmt, data, sizes, late=None, queries=True, inspector=None, between=N
     recs.append(record(insp, '-', m))
     if late is not None:
         try:
-            insp.eat_chunk(late); e = '-'
+            eat(insp, late, feeder); e = '-'
         except Exception as ex:
             e = cls_name(ex)
         recs.append(record(insp, e, m))
@@ -79,3 +127,49 @@ def final_record(obs):
     """the record after finish (the verdict) and the retained-bytes part"""
     body, _, tail = obs.partition('|#')
     return body.split('|'), tail
+
+
+# ---------------------------------------------------------------------------------------------------------------
+# InspectWrapper: reads through the wrapper from a source that hands out the chunk containers above, may answer a read
+# with an empty result although the stream goes on (size 0 reads, transient empty reads of a non-blocking source).
+class Source:
+    def __init__(self, data, feeder, empties=()):
+        self.data = data; self.pos = 0; self.k = 0; self.feeder = feeder; self.empties = set(empties)
+    def read(self, size):
+        k = self.k; self.k += 1
+        if k in self.empties: return self.feeder.wrap(b'')
+        chunk = self.data[self.pos:self.pos + size]; self.pos += len(chunk)
+        return self.feeder.wrap(chunk)
+
+def observe_wrapper(data, reads, empties=(), container=None, expected_format=None, allowed_formats=None, before=None):
+    """read `reads` sizes (0 allowed) through InspectWrapper, then the rest, close(); -> 'format:virtual_size|formats|flags'
+    flags: READ-BAD the bytes the reader got at read time are not the source's; KEPT-BAD the chunk objects the reader
+    received (fresh containers only) no longer hold the source's bytes after the run."""
+    m = fi()
+    feeder = Feeder(container or container_kind(data, reads))
+    src = Source(data, feeder, empties)
+    w = m.InspectWrapper(src, expected_format=expected_format, allowed_formats=allowed_formats)
+    copies = []; kept = []; out = []
+    def rd(n):
+        if before is not None: before(len(copies))
+        c = w.read(n)
+        copies.append(bytes(c))
+        if feeder.kind in ('bytes', 'bytearray', 'roview'): kept.append(c)
+        feeder.after()
+        return c
+    try:
+        for n in reads: rd(n)
+        guard = 0
+        while src.pos < len(data) and guard < 64:
+            rd(max(1, len(data) - src.pos)); guard += 1
+        w.close()
+        f = w.format
+        out.append('%s:%s' % (f, q(lambda: f.virtual_size)))
+        out.append(','.join(sorted(str(x) for x in w.formats)))
+    except Exception as e:
+        out.append('EXN:' + cls_name(e))
+    flags = []
+    if b''.join(copies) != data[:src.pos]: flags.append('READ-BAD')
+    if kept and b''.join(bytes(x) for x in kept) != data[:src.pos]: flags.append('KEPT-BAD')
+    out.append(','.join(flags))
+    return '|'.join(out)
